@@ -23,10 +23,16 @@ def issuance_request(pair="none", kp_reuse=False, identifiers=None, key_type="ec
               "dns": dns, "ip": ips}
         if pair == "expiring":
             op["not_after_off"] = 3600
-        elif pair == "existing":
+        elif pair in ("existing", "foreign", "foreign-rsa", "garbage-key", "empty-key"):
             # due for renewal at once: shorter than renew_delay
             op["not_after_off"] = 5 * 86400
         phase["pre"] = [op]
+        if pair in ("foreign", "foreign-rsa"):
+            # a valid matching pair written by another client, of a kind acmed's key loader refuses (secp256k1, RSA 3072)
+            op["key_type"] = "foreign-rsa3072" if pair == "foreign-rsa" else "foreign-secp256k1"
+        elif pair in ("garbage-key", "empty-key"):
+            phase["pre"] += [{"op": "truncate", "path": kp, "len": 40 if pair == "garbage-key" else 0},
+                             {"op": "observe_pair", "cert_path": cp, "key_path": kp}]
     req = cfg.scenario(doc, cas=[ca_cfg or {}], phases=[phase])
     m = {"pair": pair, "kp_reuse": kp_reuse}
     if meta:
